@@ -664,11 +664,19 @@ pub fn generate(prop: &str, thorough: bool, rng: &mut Rng, emit: &mut Emit) {
             // the integer-overflow family: prefix of each width, continuation runs of every length
             for first in [0xffu8, 0x7f, 0x3f, 0x5f, 0x27, 0x2f] {
                 for n in 0..14usize {
-                    for (cont, last) in [(0x80u8, 0x01u8), (0xff, 0x7f), (0x80, 0x00), (0xff, 0x00), (0x81, 0x02)] {
+                    for (cont, last) in [(0x80u8, 0x01u8), (0xff, 0x7f), (0x80, 0x00), (0xff, 0x00), (0x81, 0x02),
+                                         (0x80, 0x02), (0x80, 0x03), (0x80, 0x7e), (0x80, 0x7f), (0x80, 0x40)] {
                         let mut b = vec![0u8, 0, first];
                         b.extend(std::iter::repeat(cont).take(n));
                         b.push(last);
                         emit("qpack.decode", vec![hex(&b)]);
+                        // the same integer as the length of a value string after a static name
+                        // reference, followed by enough bytes for a wrapped (small) length to succeed
+                        let mut b3 = vec![0u8, 0, 0x5f, 0x00, 0x7f];
+                        b3.extend(std::iter::repeat(cont).take(n));
+                        b3.push(last);
+                        b3.extend(std::iter::repeat(0x61u8).take(300));
+                        emit("qpack.decode", vec![hex(&b3)]);
                         let mut b2 = vec![first];
                         b2.extend(std::iter::repeat(cont).take(n));
                         b2.push(last);
@@ -956,7 +964,9 @@ pub fn generate(prop: &str, thorough: bool, rng: &mut Rng, emit: &mut Emit) {
                 let port = if rng.chance(1, 2) { format!(":{}", rng.range(1, 65535)) } else { String::new() };
                 let path = if rng.chance(1, 4) { String::new() } else { format!("/{}", utf8(&rtoken(rng, 40))) };
                 let query = if rng.chance(1, 2) { format!("?{}", utf8(&rtoken(rng, 30))) } else { String::new() };
-                let u = format!("https://{host}{port}{path}{query}");
+                // a fragment is not part of the request target
+                let frag = if rng.chance(1, 4) { format!("#{}", utf8(&rtoken(rng, 6))) } else { String::new() };
+                let u = format!("https://{host}{port}{path}{query}{frag}");
                 let extra: Vec<(Vec<u8>, Vec<u8>)> = gen_header_map(rng, 5).into_iter().filter(|(k, _)| !k.starts_with(b":")).collect();
                 emit("req.new", vec![hex(u.as_bytes()), pairs_s(&extra)]);
             }
